@@ -6,11 +6,14 @@
 
    [hist c m ops] is the Manager state after the operation list [ops] (AddPublicIP / AllocateNAT /
    DeallocateNAT / GetAllocation / stats, in any order and number) from NewManager with effective
-   configuration [c] and log mode [m].  All theorems quantify over every [ops] and every
+   configuration [c] and log mode [m].  The operation alphabet includes AllocateNAT / DeallocateNAT
+   with FAULT ORACLES ([AllocF priv fm fl], [DeallocF priv fm fl]: fm = the subscriber_nat map call
+   of this operation fails, fl = the log writer fails while its record is written), so "every
+   operation list" means: every history under every pattern of failing map calls and log writes.  All theorems quantify over every [ops] and every
    configuration in the guard [cfg_ok c] := 1 <= pps /\ 0 <= start <= end <= 65535
    (decidable: [cfg_okb]); what happens outside the guard is shown by the _refuted theorems. *)
 From Coq Require Import ZArith List.
-From Verif Require Import Base.Check Model.Nat Model.NatSpec Proofs.NatProofs.
+From Verif Require Import Base.Check Model.Nat Model.NatSpec Model.NatK Model.NatKSpec Model.PktMonad Model.TcNatPkt Proofs.NatProofs Proofs.NatKProofs Proofs.NatDpProofs.
 Import ListNotations.
 Local Open Scope Z_scope.
 
@@ -39,7 +42,7 @@ Print Assumptions C10_block_size.
    removes it *)
 Theorem C10_stable : forall c m ops1 ops2 priv a,
   find_alloc priv (s_allocs (hist c m ops1)) = Some a ->
-  Forall (fun o => o <> Dealloc priv) ops2 ->
+  Forall (fun o => releases o priv = false) ops2 ->   (* no DeallocateNAT for priv, faulted or not *)
   find_alloc priv (s_allocs (hist c m (ops1 ++ ops2))) = Some a /\
   result (hist c m (ops1 ++ ops2)) (Alloc priv) = RAlloc (view a) /\
   result (hist c m (ops1 ++ ops2)) (Get priv) = RGet (Some (view a)).
@@ -50,21 +53,55 @@ Theorem C10_one_block_per_subscriber : forall c m ops, NoDup (map a_priv (s_allo
 Proof. exact c10_one_block_per_subscriber. Qed.
 Print Assumptions C10_one_block_per_subscriber.
 
-Theorem C10_released : forall c m ops priv,
-  find_alloc priv (s_allocs (hist c m (ops ++ [Dealloc priv]))) = None.
+Theorem C10_released : forall c m ops priv fl,
+  find_alloc priv (s_allocs (hist c m (ops ++ [DeallocF priv false fl]))) = None.
 Proof. exact c10_released. Qed.
 Print Assumptions C10_released.
+
+(* (4') failed calls leave nothing behind.  A release whose subscriber_nat delete fails is refused:
+   the table is as before (the subscriber keeps the block, after the repair K10f).  An allocation
+   whose subscriber_nat update fails reserves nothing: table, pool bookkeeping and log are as before
+   (only the subscriber id stays registered) -- the state the seeded change C10-b2 broke. *)
+Theorem C10_refused_release_keeps_block : forall c m ops priv fl,
+  s_allocs (hist c m (ops ++ [DeallocF priv true fl])) = s_allocs (hist c m ops).
+Proof. exact c10_refused_release_keeps. Qed.
+Print Assumptions C10_refused_release_keeps_block.
+
+Theorem C10_failed_alloc_reserves_nothing : forall c m ops priv fl,
+  find_alloc priv (s_allocs (hist c m ops)) = None ->
+  let s' := hist c m (ops ++ [AllocF priv true fl]) in
+  s_allocs s' = s_allocs (hist c m ops) /\ s_pool s' = s_pool (hist c m ops) /\ s_log s' = s_log (hist c m ops).
+Proof. exact c10_failed_alloc_reserves_nothing. Qed.
+Print Assumptions C10_failed_alloc_reserves_nothing.
 
 (* (5) attribution.  [attribute bs log ip port t] (Model/NatSpec.v) reads the log alone: records
    stamped <= t, assign adds a block, release removes it, then the blocks covering (ip, port).
    Bulk (RFC 6908) records: for every history, every time t, every (ip, port) and whatever block
    size the reader assumes, the answer is exactly the holders in the table as it was after the
    first t operations -- every allocation and release is in the log, nothing else is. *)
-Theorem C10_attributable_bulk : forall c ops bs ip port t, 0 <= t ->
+(* Guard [all_lossless ops]: no operation of the history has the log-writer fault (decidable:
+   [lossless]); map-call faults are unrestricted.  Partial + refuted: when the writer fails the record
+   is lost and the code carries on (known finding K10e). *)
+Theorem C10_attributable_bulk_partial : forall c ops bs ip port t, all_lossless ops -> 0 <= t ->
   attribute bs (s_log (hist c LogBulk ops)) ip port t =
   holders (hist c LogBulk (firstn (Z.to_nat t) ops)) ip port.
 Proof. exact c10_attributable_bulk. Qed.
-Print Assumptions C10_attributable_bulk.
+Print Assumptions C10_attributable_bulk_partial.
+
+Theorem C10_attributable_bulk_refuted :
+  ~ (forall c ops bs ip port t, 0 <= t ->
+       attribute bs (s_log (hist c LogBulk ops)) ip port t =
+       holders (hist c LogBulk (firstn (Z.to_nat t) ops)) ip port).
+Proof. exact c10_attributable_lost_record_refuted. Qed.
+Print Assumptions C10_attributable_bulk_refuted.
+
+(* the witness of K10e as the check sees it: the monitor rejects the Model's own trace at the
+   faulted call (step 2, clause 4) and the Model raises ghost marker 1003 there *)
+Theorem C10_lost_record_is_rejected_and_marked :
+  (accept_trace accept 1%N (sinit w_cfg_lost LogBulk) (mtrace (init w_cfg_lost LogBulk) w_ops_lost) = (2%N, 5%N)) /\
+  (snd (step (next (init w_cfg_lost LogBulk) (AddIP 9)) (AllocF 1 false true)) = [1003%N]).
+Proof. exact c10_lost_record_rejected. Qed.
+Print Assumptions C10_lost_record_is_rejected_and_marked.
 
 (* ... and that answer is one subscriber: at most one holder of any (ip, port), exactly the
    block's owner for a port inside a block *)
@@ -73,7 +110,7 @@ Theorem C10_at_most_one_holder : forall c m ops ip port, cfg_ok c ->
 Proof. exact c10_at_most_one_holder. Qed.
 Print Assumptions C10_at_most_one_holder.
 
-Theorem C10_attribute_names_the_holder : forall c ops bs a port t, cfg_ok c -> 0 <= t ->
+Theorem C10_attribute_names_the_holder : forall c ops bs a port t, all_lossless ops -> cfg_ok c -> 0 <= t ->
   In a (s_allocs (hist c LogBulk (firstn (Z.to_nat t) ops))) -> a_start a <= port <= a_end a ->
   attribute bs (s_log (hist c LogBulk ops)) (a_pub a) port t = [a_priv a].
 Proof. exact c10_attribute_names_the_holder. Qed.
@@ -81,7 +118,7 @@ Print Assumptions C10_attribute_names_the_holder.
 
 (* Traditional records carry the block start only.  Partial: the same equation holds when the
    reader supplies the configured block size (guard: cfg_ok and bs = pps) ... *)
-Theorem C10_attributable_traditional_partial : forall c ops ip port t, cfg_ok c -> 0 <= t ->
+Theorem C10_attributable_traditional_partial : forall c ops ip port t, all_lossless ops -> cfg_ok c -> 0 <= t ->
   attribute (c_pps c) (s_log (hist c LogTrad ops)) ip port t =
   holders (hist c LogTrad (firstn (Z.to_nat t) ops)) ip port.
 Proof. exact c10_attributable_trad. Qed.
@@ -131,11 +168,109 @@ Print Assumptions C10_no_overlap_outside_guard_refuted.
    over the implementation's traces, clauses 0-4) accepts every trace the Model produces, for
    every sequential history and every in-guard configuration and log mode: inside the guard a
    rejection of an implementation trace can never be shared by the Model *)
-Theorem C10_model_refines_spec : forall c m ops, cfg_ok c -> Forall seq_op ops ->
+Theorem C10_model_refines_spec : forall c m ops, cfg_ok c -> Forall seq_op ops -> all_lossless ops ->
   accept_trace accept 1%N (sinit c m)
     (map (fun x => (fst (fst x), snd (fst x))) (model_trace step (init c m) ops)) = (0%N, 0%N).
 Proof. exact c10_model_refines_spec_check. Qed.
 Print Assumptions C10_model_refines_spec.
+
+(* (8) the Manager writing into a real subscriber_nat map (Model/NatK.v): [khist c m mx kops] is the
+   state (Manager + map content) after the K operations [kops] on a hash map of [mx] entries: Manager
+   calls (with or without fault oracles; an update of a new key also fails when the map is full),
+   the harness's own foreign entries (KPut / KDel: keys >= 192.168.0.0, guard [kops_ok], decidable
+   [kop_ok]) and dumps.  Every such history is a history of (1)-(7) with the effective faults, so all
+   theorems above hold for it -- for every fault pattern and capacity. *)
+Theorem C10_fault_histories_are_histories : forall c m mx kops,
+  k_s (khist c m mx kops) = hist c m (kproj (kinit c m mx) kops).
+Proof. exact khist_is_hist. Qed.
+Print Assumptions C10_fault_histories_are_histories.
+
+(* table and datapath map agree after every operation, also after a failed one: one entry per
+   holder carrying its block and cursor = block start, no other entry below the foreign keys *)
+Theorem C10_datapath_map_mirrors_table : forall c m mx kops, kops_ok kops ->
+  let ks := khist c m mx kops in
+  (forall a, In a (s_allocs (k_s ks)) -> In (kentry_of c a) (k_map ks)) /\
+  (forall e, In e (k_map ks) -> ke_key e < FB -> exists a, In a (s_allocs (k_s ks)) /\ e = kentry_of c a) /\
+  NoDup (map ke_key (k_map ks)).
+Proof. exact c10_datapath_mirrors_table. Qed.
+Print Assumptions C10_datapath_map_mirrors_table.
+
+Theorem C10_datapath_no_overlap : forall c m mx kops e1 e2, cfg_ok c -> kops_ok kops ->
+  In e1 (k_map (khist c m mx kops)) -> In e2 (k_map (khist c m mx kops)) ->
+  ke_key e1 < FB -> ke_key e2 < FB -> ke_key e1 <> ke_key e2 -> ke_pub e1 = ke_pub e2 ->
+  ke_end e1 < ke_start e2 \/ ke_end e2 < ke_start e1.
+Proof. exact c10_datapath_no_overlap. Qed.
+Print Assumptions C10_datapath_no_overlap.
+
+Theorem C10_datapath_entry_in_range : forall c m mx kops e, cfg_ok c -> kops_ok kops ->
+  In e (k_map (khist c m mx kops)) -> ke_key e < FB ->
+  c_start c <= ke_start e /\ ke_start e <= ke_next e <= ke_end e /\ ke_end e <= c_end c /\
+  ke_end e - ke_start e + 1 = c_pps c.
+Proof. exact c10_datapath_entry_in_range. Qed.
+Print Assumptions C10_datapath_entry_in_range.
+
+(* refinement for the K layer: the monitor [kaccept] (clauses 0-5, run by bin/check over the
+   implementation's kernel-map traces) accepts every trace of the K Model, for every pattern of
+   map-call faults and every capacity (log-writer faults excluded: K10e) *)
+Theorem C10_kmodel_refines_spec : forall c m mx kops, cfg_ok c -> kops_ok kops -> Forall kseq_op kops ->
+  Forall (fun o => klossless o = true) kops ->
+  accept_trace kaccept 1%N (ksinit c m)
+    (map (fun x => (fst (fst x), snd (fst x))) (model_trace kstep (kinit c m mx) kops)) = (0%N, 0%N).
+Proof. exact c10_kmodel_refines_spec. Qed.
+Print Assumptions C10_kmodel_refines_spec.
+
+(* non-vacuity of (8): a one-entry map; B's update fails (map full), B is then unknown; A's release
+   is refused while the delete fails; after the real release B gets A's former block *)
+Example C10_fault_hypotheses_satisfiable :
+  cfg_ok kex_cfg /\ kops_ok kex_ops /\ Forall kseq_op kex_ops /\ Forall (fun o => klossless o = true) kex_ops /\
+  map (fun a => (a_priv a, a_start a)) (s_allocs (k_s (khist kex_cfg LogBulk 1 kex_ops))) = [(2, 60000)] /\
+  map ke_key (k_map (khist kex_cfg LogBulk 1 kex_ops)) = [2].
+Proof.
+  split; [reflexivity|]. split; [repeat constructor|]. split; [repeat constructor|]. split; [repeat constructor|].
+  vm_compute. split; reflexivity.
+Qed.
+
+(* (9) the data-plane half: the source port bpf/nat44.c translates a NEW flow to.  Subject:
+   [alloc_loop] / [choose_mapping] of Model/TcNatPkt.v (allocate_port_from_block and the mapping choice
+   of nat44_egress; the Model built and tied to the compiled program for C07).  From any cursor inside
+   the block -- AllocateNAT writes cursor = block start, (8) -- and for every parity request, EIM table
+   content, flow and iteration bound: the port is 0 (exhausted, the packet is dropped) or inside
+   [port_start, port_end], and the cursor left behind is inside the block again (wrap at the block end,
+   block ending at 65535 included); hence for any sequence of new flows.  Flows that hit an existing
+   session / EIM entry use the cached port: see docs/C10.md (K10g). *)
+Theorem C10_dataplane_new_flow_port_in_block : forall k mp pstart pend next parity op ip proto,
+  (pstart <= pend)%N -> (pend <= 65535)%N -> in_block pstart pend next ->
+  let '(p, next') := alloc_loop k mp pstart pend next parity op ip proto in
+  (p = 0%N \/ in_block pstart pend p) /\ in_block pstart pend next'.
+Proof. exact alloc_loop_in_block. Qed.
+Print Assumptions C10_dataplane_new_flow_port_in_block.
+
+Theorem C10_dataplane_flow_sequence_in_block : forall k mp pstart pend flows next,
+  (pstart <= pend)%N -> (pend <= 65535)%N -> in_block pstart pend next ->
+  Forall (fun p => p = 0%N \/ in_block pstart pend p) (alloc_seq k mp pstart pend next flows).
+Proof. exact alloc_seq_in_block. Qed.
+Print Assumptions C10_dataplane_flow_sequence_in_block.
+
+Theorem C10_dataplane_mapping_in_block : forall mp sn saddr sport proto ip port,
+  (fld 4 2 sn <= fld 6 2 sn)%N -> (fld 6 2 sn <= 65535)%N -> in_block (fld 4 2 sn) (fld 6 2 sn) (fld 8 4 sn) ->
+  mp MAP_EIM (eim_key saddr sport proto) = None ->
+  choose_mapping mp sn saddr sport proto = Some (ip, port) ->
+  ip = fld 0 4 sn /\ exists p, port = htons p /\ in_block (fld 4 2 sn) (fld 6 2 sn) p.
+Proof. exact choose_mapping_in_block. Qed.
+Print Assumptions C10_dataplane_mapping_in_block.
+
+(* refuted without the cursor invariant: the C never compares the candidate with port_start *)
+Theorem C10_dataplane_cursor_outside_block_refuted :
+  ~ (forall mp pstart pend next, (pstart <= pend)%N -> (pend <= 65535)%N ->
+       let '(p, _) := alloc_loop 64 mp pstart pend next false 0%N 0%N 0%N in p = 0%N \/ in_block pstart pend p).
+Proof. exact alloc_loop_outside_block_refuted. Qed.
+Print Assumptions C10_dataplane_cursor_outside_block_refuted.
+
+Example C10_dataplane_wrap_at_65535 :
+  alloc_seq 64 (fun _ _ => None) 65532%N 65535%N 65534%N
+    [(false, 0%N, 0%N, 6%N); (false, 0%N, 0%N, 6%N); (false, 0%N, 0%N, 6%N); (false, 0%N, 0%N, 6%N)]
+  = [65534%N; 65535%N; 65532%N; 65533%N].
+Proof. exact alloc_wraps_at_block_end. Qed.
 
 (* non-vacuity: A, B, C allocate, A releases, D allocates (the history that used to give D the
    ports of C), range 60000-65535 with 1000 ports each (non-dividing).  Three subscribers hold
